@@ -1,5 +1,6 @@
 import VelaVerif.Lemmas.Serialise
-import VelaVerif.Spec.Alloc
+import VelaVerif.Lemmas.AllocLinear
+import VelaVerif.Spec.Serialise
 /-!
 # C12 (second sentence) / C02 (published extents) — the serialiser and the reported figures
 
@@ -87,33 +88,135 @@ theorem compressed_length_checked (mem : List Nat) (t : Comp) (a : Nat) (m : Lis
 theorem compressed_length_checked_witness :
     copyCompressed (List.replicate 16 0) ⟨some 0, 16, [7]⟩ = .ok (List.replicate 16 7) := by rfl
 
-/-- the constants ranges as `Props/C05` speaks of them: placed entries that are conflict free when all alive together (the linear
-    live-range graph of the permanent area; `linear_disjoint` holds for every choice of times) give `Compatible` copies, provided
-    entries declared equivalent hold the same bytes (the encoder's cache returns one tensor per configuration: C08) -/
-theorem compatible_of_alloc (cs : List Copy) (ps : List Spec.Alloc.Placed) (hlen : cs.length = ps.length)
-    (hno : Spec.Alloc.NoOverlap ps)
-    (hmatch : ∀ i (hi : i < cs.length), (ps[i]'(hlen ▸ hi)).addr = cs[i].1 ∧ cs[i].2.length ≤ (ps[i]'(hlen ▸ hi)).size ∧
-      (ps[i]'(hlen ▸ hi)).start = 0 ∧ (ps[i]'(hlen ▸ hi)).end_ = 0)
-    (hshared : ∀ i j (hi : i < cs.length) (hj : j < cs.length),
-      Spec.Alloc.Shared (ps[i]'(hlen ▸ hi)) (ps[j]'(hlen ▸ hj)) → cs[i].2 = cs[j].2) :
+/-- the constants ranges as `Props/C05` speaks of them: placed entries `ps` that are conflict free when all alive together (the
+    linear live-range graph of the permanent area; `linear_disjoint` holds for every choice of times) give `Compatible` copies,
+    when copy `k` is the content of entry `idx k` and copies of one entry, or of entries declared equivalent, hold the same bytes
+    (the encoder's cache returns one tensor per configuration: C08) -/
+theorem compatible_of_alloc (cs : List Copy) (ps : List Spec.Alloc.Placed) (idx : Nat → Nat)
+    (hidx : ∀ k, k < cs.length → idx k < ps.length)
+    (hno : Spec.Alloc.NoOverlap ps) (hlive : ∀ p ∈ ps, p.start = 0 ∧ p.end_ = 0)
+    (hmatch : ∀ k (hk : k < cs.length), (ps[idx k]'(hidx k hk)).addr = cs[k].1 ∧ cs[k].2.length ≤ (ps[idx k]'(hidx k hk)).size)
+    (hshared : ∀ k l (hk : k < cs.length) (hl : l < cs.length),
+      (idx k = idx l ∨ Spec.Alloc.Shared (ps[idx k]'(hidx k hk)) (ps[idx l]'(hidx l hl))) → cs[k].2 = cs[l].2) :
     cs.Pairwise Compatible := by
   rw [List.pairwise_iff_getElem]
-  intro i j hi hj hij
-  have hp := (List.pairwise_iff_getElem.1 hno) i j (hlen ▸ hi) (hlen ▸ hj) hij
-  obtain ⟨a1, l1, s1, e1⟩ := hmatch i hi
-  obtain ⟨a2, l2, s2, e2⟩ := hmatch j hj
-  have hlive : Spec.Alloc.LiveTogether (ps[i]'(hlen ▸ hi)) (ps[j]'(hlen ▸ hj)) :=
-    ⟨0, ⟨by omega, by omega⟩, ⟨by omega, by omega⟩⟩
-  rcases hp hlive with hd | hs
-  · unfold Spec.Alloc.Disjoint at hd
-    unfold Compatible
-    rcases hd with hd | hd
-    · left; omega
-    · right; left; omega
-  · right; right
-    have hb := hshared i j hi hj hs
-    have ha : cs[i].1 = cs[j].1 := by rw [← a1, ← a2]; exact hs.2.2
-    exact Prod.ext ha hb
+  intro k l hk hl hkl
+  obtain ⟨a1, l1⟩ := hmatch k hk
+  obtain ⟨a2, l2⟩ := hmatch l hl
+  have same : ∀ (_ : (ps[idx k]'(hidx k hk)).addr = (ps[idx l]'(hidx l hl)).addr) (_ : cs[k].2 = cs[l].2), Compatible cs[k] cs[l] := by
+    intro ha hb
+    right; right
+    exact Prod.ext (by rw [← a1, ← a2]; exact ha) hb
+  by_cases he : idx k = idx l
+  · have hb := hshared k l hk hl (Or.inl he)
+    have ha : (ps[idx k]'(hidx k hk)).addr = (ps[idx l]'(hidx l hl)).addr := by simp only [he]
+    exact same ha hb
+  · have hlive' : ∀ (i j : Nat) (hi : i < ps.length) (hj : j < ps.length), Spec.Alloc.LiveTogether ps[i] ps[j] := by
+      intro i j hi hj
+      have h1 := hlive ps[i] (List.getElem_mem hi)
+      have h2 := hlive ps[j] (List.getElem_mem hj)
+      exact ⟨0, ⟨by omega, by omega⟩, ⟨by omega, by omega⟩⟩
+    have hpw := List.pairwise_iff_getElem.1 hno
+    have hconf : Spec.Alloc.Disjoint (ps[idx k]'(hidx k hk)) (ps[idx l]'(hidx l hl)) ∨
+        Spec.Alloc.Shared (ps[idx k]'(hidx k hk)) (ps[idx l]'(hidx l hl)) := by
+      rcases Nat.lt_or_gt_of_ne he with hlt | hgt
+      · exact hpw _ _ (hidx k hk) (hidx l hl) hlt (hlive' _ _ _ _)
+      · rcases hpw _ _ (hidx l hl) (hidx k hk) hgt (hlive' _ _ _ _) with hd | hs
+        · left; unfold Spec.Alloc.Disjoint at hd ⊢; omega
+        · right; exact ⟨fun h0 => hs.1 (by rw [hs.2.1]; exact h0), hs.2.1.symm, hs.2.2.symm⟩
+    rcases hconf with hd | hs
+    · unfold Spec.Alloc.Disjoint at hd
+      unfold Compatible
+      rcases hd with hd | hd
+      · left; omega
+      · right; left; omega
+    · exact same hs.2.2 (hshared k l hk hl (Or.inr hs))
+
+open VelaVerif.Alloc in
+/-- the hypotheses of `flash_bytes_are_tensor_bytes` from the LinearAlloc model of C05 (`Model/Alloc.linear`, theorems
+    `linear_disjoint` / `linear_total` through their invariant): when the constants are placed by `linear_allocate_live_ranges`,
+    copy `k` is the content of range `idx k` (at the range's address, not longer than the range), and copies of one range or of
+    ranges declared equivalent (one class) hold the same bytes, then the copies are pairwise compatible and end below the
+    total, which is what `allocate_tensors` stores in `memory_used[permanent area]`. -/
+theorem flash_layout_from_linear (sizes : List Nat) (tens : List LTens) (cls : Nat → Nat) (gran : Nat)
+    (hg : 0 < gran) (hyp : LinHyp sizes tens cls) (addrs : List (Nat × Nat)) (total : Nat)
+    (h : linear sizes tens gran = .ok (addrs, total))
+    (cs : List Copy) (idx : Nat → Nat) (hidx : ∀ k, k < cs.length → idx k < addrs.length)
+    (hmatch : ∀ k (hk : k < cs.length), (addrs[idx k]'(hidx k hk)).2 = cs[k].1 ∧
+      cs[k].2.length ≤ szOf sizes (addrs[idx k]'(hidx k hk)).1)
+    (hshared : ∀ k l (hk : k < cs.length) (hl : l < cs.length),
+      (idx k = idx l ∨ (cls (addrs[idx k]'(hidx k hk)).1 ≠ 0 ∧ cls (addrs[idx k]'(hidx k hk)).1 = cls (addrs[idx l]'(hidx l hl)).1)) →
+      cs[k].2 = cs[l].2) :
+    cs.Pairwise Compatible ∧ ∀ c ∈ cs, c.1 + c.2.length ≤ total := by
+  obtain ⟨alloc, fresh, inv⟩ := linear_inv sizes tens cls gran hyp addrs total h
+  let times : Nat → Nat × Nat := fun _ => (0, 0)
+  have hno : Spec.Alloc.NoOverlap (addrs.map (linPlaced sizes times cls gran)) :=
+    List.Pairwise.imp (R := fun a b => Spec.Alloc.Disjoint a b ∨ Spec.Alloc.Shared a b) (S := Spec.Alloc.NoConflict)
+      (fun h _ => h) (linInv_noOverlap sizes tens cls gran hg _ fresh inv times)
+  have htot : total = Spec.Alloc.paddedEnd (addrs.map (linPlaced sizes times cls gran)) :=
+    linInv_total sizes tens cls gran _ fresh inv times
+  have hidx' : ∀ k, k < cs.length → idx k < (addrs.map (linPlaced sizes times cls gran)).length := by
+    intro k hk; simpa using hidx k hk
+  refine ⟨compatible_of_alloc cs _ idx hidx' hno ?_ ?_ ?_, ?_⟩
+  · intro p hp
+    obtain ⟨e, _, rfl⟩ := List.mem_map.1 hp
+    exact ⟨rfl, rfl⟩
+  · intro k hk
+    simp only [List.getElem_map, linPlaced]
+    exact hmatch k hk
+  · intro k l hk hl hor
+    apply hshared k l hk hl
+    rcases hor with he | hs
+    · exact Or.inl he
+    · right
+      simp only [List.getElem_map, linPlaced, Spec.Alloc.Shared] at hs
+      exact ⟨hs.1, hs.2.1⟩
+  · intro c hc
+    obtain ⟨k, hk, rfl⟩ := List.getElem_of_mem hc
+    obtain ⟨ha, hl⟩ := hmatch k hk
+    have hmem : linPlaced sizes times cls gran (addrs[idx k]'(hidx k hk)) ∈ addrs.map (linPlaced sizes times cls gran) :=
+      List.mem_map.2 ⟨_, List.getElem_mem _, rfl⟩
+    have h1 := Spec.Alloc.le_highestEnd hmem
+    have h2 := Spec.Alloc.le_paddedEnd (addrs.map (linPlaced sizes times cls gran))
+    have h2' : Spec.Alloc.highestEnd (addrs.map (linPlaced sizes times cls gran)) ≤
+        Spec.Alloc.paddedEnd (addrs.map (linPlaced sizes times cls gran)) := by
+      rcases h2 with h2 | ⟨p, hp, hz⟩
+      · exact h2
+      · obtain ⟨e, _, rfl⟩ := List.mem_map.1 hp
+        simp only [linPlaced] at hz
+        omega
+    have h3 := Nat.le_trans h1 h2'
+    rw [← htot] at h3
+    simp only [linPlaced] at h3
+    omega
+
+open VelaVerif.Alloc in
+/-- **flash_bytes_are_tensor_bytes, C05 form**: (a) with its two allocation hypotheses discharged by the LinearAlloc model: the
+    constants are placed by `linear`, `memory_used[permanent area]` is the total it returned, every constant of the subgraph is in
+    place (address, values, stream length) and is the content of a range. -/
+theorem flash_bytes_from_linear (arch : Arch) (sg : Sg) (r : Result) (hnpu : sg.isNpu = true)
+    (h : serialise arch sg none none none = .ok r)
+    (sizes : List Nat) (tens : List LTens) (cls : Nat → Nat) (gran : Nat)
+    (hg : 0 < gran) (hyp : LinHyp sizes tens cls) (addrs : List (Nat × Nat)) (total : Nat)
+    (hlin : linear sizes tens gran = .ok (addrs, total))
+    (hused : dictGet sg.memoryUsed arch.flashArea = total)
+    (hplace : ∀ it ∈ sgItems sg, (it.copy?).isSome = true)
+    (idx : Nat → Nat) (hidx : ∀ k, k < (copies (sgItems sg)).length → idx k < addrs.length)
+    (hmatch : ∀ k (hk : k < (copies (sgItems sg)).length), (addrs[idx k]'(hidx k hk)).2 = (copies (sgItems sg))[k].1 ∧
+      (copies (sgItems sg))[k].2.length ≤ szOf sizes (addrs[idx k]'(hidx k hk)).1)
+    (hshared : ∀ k l (hk : k < (copies (sgItems sg)).length) (hl : l < (copies (sgItems sg)).length),
+      (idx k = idx l ∨ (cls (addrs[idx k]'(hidx k hk)).1 ≠ 0 ∧ cls (addrs[idx k]'(hidx k hk)).1 = cls (addrs[idx l]'(hidx l hl)).1)) →
+      (copies (sgItems sg))[k].2 = (copies (sgItems sg))[l].2) :
+    ∃ fl vals, r.flash = some fl ∧ fl.values = some vals ∧ fl.size = total ∧ vals.length = total ∧
+      (∀ c ∈ copies (sgItems sg), ∀ j, j < c.2.length → vals[c.1 + j]? = c.2[j]?) ∧
+      (∀ i, i < total → (∀ c ∈ copies (sgItems sg), Outside c i) → vals[i]? = some 0) := by
+  obtain ⟨hcomp, hbound⟩ := flash_layout_from_linear sizes tens cls gran hg hyp addrs total hlin _ idx hidx hmatch hshared
+  have hin : ∀ it ∈ sgItems sg, ∃ c, it.copy? = some c ∧ c.1 + c.2.length ≤ dictGet sg.memoryUsed arch.flashArea := by
+    intro it hit
+    obtain ⟨c, hc⟩ := Option.isSome_iff_exists.1 (hplace it hit)
+    exact ⟨c, hc, by rw [hused]; exact hbound c (List.mem_filterMap.2 ⟨it, hit, hc⟩)⟩
+  obtain ⟨fl, vals, h1, h2, h3, h4, _, _, h7, h8⟩ := flash_bytes_are_tensor_bytes arch sg r hnpu h hin hcomp
+  exact ⟨fl, vals, h1, h2, by rw [h3, hused], by rw [h4, h3, hused], h7, fun i hi => h8 i (by rw [h3, hused]; exact hi)⟩
 
 /-! ## (b) the scratch tensors -/
 
@@ -353,6 +456,150 @@ theorem reported_ge_extent_witness :
     let calls : List AllocCall := [⟨.sram, [.scratch, .scratchFast], 768, true⟩]
     ¬ (planExtent (publishedPlan (some inputPlan) fresh) ≤ lookup (books calls).used .sram) ∧
     planExtent (publishedPlan none fresh) ≤ lookup (books calls).used .sram := by decide
+
+/-! ## the Spec checkers that judge the OUTPUT FILE (`Spec/Serialise.lean`) are sound; the Spec's byte encoding is the model's -/
+
+section SpecSound
+open VelaVerif.Spec.Serialise
+
+theorem flashOk_sound (flash : List Nat) (ps : List Placed) (h : flashOk flash ps = true) :
+    ∀ p ∈ ps, p.addr + p.src.bytes.length ≤ flash.length ∧ slice flash p.addr p.src.bytes.length = p.src.bytes := by
+  intro p hp
+  unfold flashOk flashProblems at h
+  simp only [List.isEmpty_iff, List.append_eq_nil_iff] at h
+  have h1 := h.1
+  rw [List.filterMap_eq_nil_iff] at h1
+  obtain ⟨i, hi, hget⟩ := List.getElem_of_mem hp
+  have hmem : ((p.addr, p.src.bytes), i) ∈ (ps.map fun p => (p.addr, p.src.bytes)).zipIdx := by
+    rw [List.mem_zipIdx_iff_getElem?]
+    simp [hget, hi]
+  have := h1 _ hmem
+  simp only at this
+  split at this
+  · cases this
+  · split at this
+    · cases this
+    · rename_i h2 h3
+      refine ⟨by omega, ?_⟩
+      simpa using h3
+
+theorem spanOk_sound (offset : Int) (size : Nat) (tens : List (Nat × Nat)) (h : spanOk offset size tens = true) :
+    offset = 0 ∧ ∀ t ∈ tens, t.1 + t.2 ≤ size := by
+  unfold spanOk spanProblems at h
+  simp only [List.isEmpty_iff, List.append_eq_nil_iff] at h
+  refine ⟨?_, ?_⟩
+  · have := h.1
+    by_cases h0 : offset = 0
+    · exact h0
+    · simp [h0] at this
+  · intro t ht
+    have h1 := h.2
+    rw [List.filterMap_eq_nil_iff] at h1
+    obtain ⟨i, hi, hget⟩ := List.getElem_of_mem ht
+    have hmem : (t, i) ∈ tens.zipIdx := by
+      rw [List.mem_zipIdx_iff_getElem?]
+      simp [hget, hi]
+    have := h1 _ hmem
+    simp only at this
+    split at this
+    · cases this
+    · omega
+
+theorem orderOk_sound (kinds : List Nat) (regions : List (Nat × Nat)) (h : orderOk kinds regions = true) :
+    kinds.take 4 = [0, 1, 2, 3] ∧ (∀ k ∈ kinds.drop 4, k = 9) ∧ ∀ r ∈ regions, kinds[r.1 + 1]? = some r.2 := by
+  unfold orderOk orderProblems at h
+  simp only [List.isEmpty_iff, List.append_eq_nil_iff] at h
+  obtain ⟨⟨h1, h2⟩, h3⟩ := h
+  refine ⟨?_, ?_, ?_⟩
+  · by_cases hk : kinds.take 4 = [0, 1, 2, 3]
+    · exact hk
+    · simp [hk] at h1
+  · intro k hk
+    have h2' : ∀ x ∈ kinds.drop 4, x = 9 := by simpa using h2
+    exact h2' k hk
+  · intro r hr
+    rw [List.filterMap_eq_nil_iff] at h3
+    have := h3 r hr
+    split at this
+    · cases this
+    · rename_i hne
+      simpa using hne
+
+theorem reportOk_sound (figs : List (String × Nat × Nat)) (h : reportOk figs = true) :
+    ∀ f ∈ figs, f.2.2 ≤ f.2.1 := by
+  unfold reportOk reportProblems at h
+  simp only [List.isEmpty_iff] at h
+  rw [List.filterMap_eq_nil_iff] at h
+  intro f hf
+  have := h f hf
+  split at this
+  · cases this
+  · rename_i hlt
+    exact Nat.le_of_not_lt hlt
+
+theorem flashOk_sound_pairs (flash : List Nat) (ps : List Placed) (h : flashOk flash ps = true)
+    (i j : Nat) (hi : i < ps.length) (hj : j < ps.length) (hij : i < j)
+    (hne : 0 < ps[i].src.bytes.length ∧ 0 < ps[j].src.bytes.length)
+    (hov : ps[i].addr < ps[j].addr + ps[j].src.bytes.length ∧ ps[j].addr < ps[i].addr + ps[i].src.bytes.length) :
+    ps[i].addr = ps[j].addr ∧ ps[i].src.bytes = ps[j].src.bytes := by
+  unfold flashOk flashProblems at h
+  simp only [List.isEmpty_iff, List.append_eq_nil_iff] at h
+  have h2 := h.2
+  rw [List.flatMap_eq_nil_iff] at h2
+  have hmi : ((ps[i].addr, ps[i].src.bytes), i) ∈ (ps.map fun p => (p.addr, p.src.bytes)).zipIdx := by
+    rw [List.mem_zipIdx_iff_getElem?]; simp [hi]
+  have hmj : ((ps[j].addr, ps[j].src.bytes), j) ∈ (ps.map fun p => (p.addr, p.src.bytes)).zipIdx := by
+    rw [List.mem_zipIdx_iff_getElem?]; simp [hj]
+  have h3 := h2 _ hmi
+  rw [List.filterMap_eq_nil_iff] at h3
+  have h4 := h3 _ hmj
+  simp only at h4
+  split at h4
+  · cases h4
+  · rename_i hc
+    simp only [Bool.and_eq_true, decide_eq_true_eq, Bool.not_eq_true', not_and] at hc
+    by_cases hs : (ps[i].addr == ps[j].addr && ps[i].src.bytes == ps[j].src.bytes) = true
+    · simpa using hs
+    · exfalso
+      have hs' : (ps[i].addr == ps[j].addr && ps[i].src.bytes == ps[j].src.bytes) = false := by simpa using hs
+      have := hc ⟨⟨⟨⟨hij, hne.1⟩, hne.2⟩, hov.1⟩, hov.2⟩
+      simp [hs'] at this
+
+theorem leNat_get (n u k : Nat) (hk : k < n) : (leNat n u)[k]? = some (u / 256 ^ k % 256) := by
+  induction n generalizing u k with
+  | zero => omega
+  | succ n ih =>
+    cases k with
+    | zero => simp [leNat]
+    | succ k =>
+      simp only [leNat, List.getElem?_cons_succ]
+      rw [ih (u / 256) k (by omega), Nat.div_div_eq_div_mul, Nat.pow_succ, Nat.mul_comm]
+
+theorem elemByte_eq (sz : Nat) (v : Int) (k : Nat) :
+    elemByte sz v k = (v % (256 : Int) ^ sz).toNat / 256 ^ k % 256 := by
+  unfold elemByte
+  have hnn : 0 ≤ v % (256 : Int) ^ sz := Int.emod_nonneg _ (Int.ne_of_gt (Int.pow_pos (by decide)))
+  obtain ⟨u, hu⟩ := Int.eq_ofNat_of_zero_le hnn
+  rw [hu]
+  simp only [Int.toNat_natCast]
+  have : ((u : Int) / (256 : Int) ^ k % 256) = ((u / 256 ^ k % 256 : Nat) : Int) := by
+    simp [Int.natCast_ediv, Int.natCast_emod, Int.natCast_pow]
+  rw [this, Int.toNat_natCast]
+
+/-- the Spec's element encoding (written from the definition of two's complement little endian) is the model's -/
+theorem spec_ints_bytes (sz : Nat) (vals : List Int) : (Src.ints sz vals).bytes = vals.flatMap (leBytes sz) := by
+  show List.flatMap (fun v => List.map (elemByte sz v) (List.range sz)) vals = _
+  congr 1
+  funext v
+  apply List.ext_getElem?
+  intro k
+  by_cases hk : k < sz
+  · rw [leBytes, leNat_get _ _ _ hk]
+    simp [hk, elemByte_eq]
+  · have h1 : (leBytes sz v).length ≤ k := by rw [leBytes_length]; omega
+    rw [List.getElem?_eq_none h1, List.getElem?_eq_none (by simp; omega)]
+
+end SpecSound
 
 /-! ## non-vacuity -/
 
